@@ -8,7 +8,7 @@ ID,caught=sys.argv[1],sys.argv[2]
 m=json.load(open(f'/tmp/seed-{ID}/seeded_out/meta.json'))
 out={"property":ID,"breaks":m.get("summary"),"needs_to_manifest":m.get("needs_to_manifest"),"files_changed":m.get("files_changed"),
  "origin":"fresh sub-agent given only the property text and a scratch worktree (no access to /verif)",
- "confirmed_here":{"how":"verify_seed.sh in the scratch worktree: go build ./..., demo with the change (must fail), demo with the library files stashed (must pass), library suite with the change (must pass)",
+ "confirmed_here":{"how":"verify_seed.sh on a fresh scratch worktree of /repo HEAD: demo on the clean tree (must pass), git apply patch.diff, go build ./..., demo with the change (must fail), the library suite with the change (must pass; a package that failed under machine load was re-run alone once)",
    "demo_fails_with_change":True,"demo_passes_without_change":True,"suite_passes_with_change":True,"demo_failure_rate":m.get("demo_failure_rate")},
  "caught_by":caught}
 json.dump(out,open(f'/verif/seeded/{ID}/meta.json','w'),indent=1)
